@@ -72,7 +72,10 @@ def new_version_contract():
     def h_check_versionable(x, e, p, site):
         yield p.fork(), Exc('TypeNotVersionableError', site)
         yield p.fork(), Exc('ObjectNotVersionableError', site)
-        yield p, stix_version
+        # callee postcondition: for a library object or a dictionary the detected version is "2.0" or "2.1", never None
+        # (proved separately: get_stix_version_contract; that every library class derives from the base of its version is the class-table invariant of C05)
+        sv = stix_version.t[1].t
+        yield p.fork(z3.Not(stix_version.t[0]), z3.Or(sv == z3.StringVal('2.0'), sv == z3.StringVal('2.1'))), stix_version
 
     def h_deepcopy(x, e, p, site):
         for p1, vs in x.ev_seq(list(e.args), p):
@@ -341,6 +344,34 @@ def revoke_contract():
                                                           z3.Not(z3.And(IS_MAPPING, x.params['data'].x['present']('revoked'), x.params['data'].x['value']('revoked').t)), p.exact)
                                                       for i, (k, p, v) in enumerate(outs) if k == 'return'],
                     note='a revoked object cannot be revoked again')
+
+
+def get_stix_version_contract():
+    """_get_stix_version: an instance of one of the two version base classes gets that version; a dictionary gets what detect_spec_version says ("2.0"/"2.1", C14);
+    None only for values that are neither"""
+    IS_MAP = z3.Bool('isinstance(data, Mapping)'); IS20 = z3.Bool('isinstance(data, _STIXBase20)'); IS21 = z3.Bool('isinstance(data, _STIXBase21)'); IS_DICT = z3.Bool('isinstance(data, dict)')
+    DET = z3.String('detect_spec_version(data)')
+
+    def isinst(t):
+        def h(x, v, p, site): yield p, Bool(t)
+        return h
+
+    def h_detect(x, e, p, site): yield p.fork(z3.Or(DET == z3.StringVal('2.0'), DET == z3.StringVal('2.1'))), Str(DET)
+
+    def ens(a, r):
+        if r.sort == 'none': return z3.Not(z3.And(IS_MAP, z3.Or(IS20, IS21, IS_DICT)))
+        if r.sort == 'str': return z3.And(IS_MAP, z3.If(IS20, r.t == z3.StringVal('2.0'), z3.If(IS21, r.t == z3.StringVal('2.1'), z3.And(IS_DICT, r.t == DET))))
+        if r.sort == 'opt:str': return z3.If(r.t[0], z3.Not(z3.And(IS_MAP, z3.Or(IS20, IS21, IS_DICT))),
+                                             z3.And(IS_MAP, z3.If(IS20, r.t[1].t == z3.StringVal('2.0'), z3.If(IS21, r.t[1].t == z3.StringVal('2.1'), z3.And(IS_DICT, r.t[1].t == DET)))))
+        from vf.pyvc.contract import SortMismatch
+        raise SortMismatch('version result ' + r.sort)
+    return Contract(f'{SRC}::_get_stix_version', props=['C05'], params={'data': Val('opaque', x='data')},
+                    requires=[('library objects are mappings (class hierarchy)', lambda a: z3.Implies(z3.Or(IS20, IS21, IS_DICT), IS_MAP))],
+                    ensures=[('version of the base class, else the detected version of a dictionary; None only for values that are neither', ens)], raises={},
+                    handlers={'isinstance:Mapping': isinst(IS_MAP), 'isinstance:stix2.v20._STIXBase20': isinst(IS20), 'isinstance:stix2.v21._STIXBase21': isinst(IS21), 'isinstance:dict': isinst(IS_DICT),
+                              'detect_spec_version': h_detect},
+                    local_sorts={'stix_version': 'opt:str'},
+                    assumptions=['callee contract used: detect_spec_version returns "2.0" or "2.1" (C14)'], note='the version new_version works with is never None for library objects and dictionaries')
 
 
 def chain_lemmas():
